@@ -51,6 +51,15 @@ func vfConc(s string) string { return s }
 // vfSymbolic reports whether the harness runs inside the engine.
 func vfSymbolic() bool { return false }
 
+// vfTier is 0 for the quick tier and 1 for the thorough tier.
+func vfTier() int { return vfTierValue }
+
+// vfLive returns the number of goroutines started by the harness that are still alive.
+func vfLive() int { return ndLiveGoroutines() }
+
+var vfTierValue int
+var vfBaseGoroutines int
+
 type vfAssumeFailed struct{}
 
 var vfFailures []string
